@@ -317,3 +317,79 @@ package sqlx
 //@   trusted
 //@   modifies struct(schema.GeneratedExpr)
 //@   ensures GvcIs[*schema.GeneratedExpr](target) ==> ok == SpecHasGen(elements) && (ok ==> target.(*schema.GeneratedExpr).Type == SpecGenType(elements))
+
+// ---------------------------------------------------------------------------------------
+// C04 (narrow): dependsOn reports every foreign-key ordering constraint between two top-level
+// changes: a table is created before a table or a foreign key that references it, and a table
+// is dropped after every table or foreign key that references it.  (SortChanges turns these
+// edges into the plan order; its traversal is not under contract.)
+
+//@ import "slices"
+//@ func dependOnOf(change, other schema.Change) (b bool)
+//@   trusted
+//@   pure
+//@ func typeDependsOnT(t schema.Type, tt *schema.Table) (b bool)
+//@   trusted
+//@   pure
+//@ func depOfAdd(refs []schema.Object, c schema.Change) (b bool)
+//@   trusted
+//@   pure
+//@ func depOfDrop(o schema.Object, c schema.Change) (b bool)
+//@   trusted
+//@   pure
+//@ extern func schema.IsType(t schema.Type, x schema.Type) (b bool)
+//@   pure
+//@ spec func gvcFKRefs(fks []*schema.ForeignKey, t *schema.Table) bool {
+//@ spec 	return (exists i int :: 0 <= i && i < len(fks) && SameTable(fks[i].RefTable, t))
+//@ spec }
+//@ rec gvcAddsFKTo
+//@ spec func gvcAddsFKTo(c schema.Change, t *schema.Table) bool {
+//@ spec 	a, ok := c.(*schema.AddForeignKey)
+//@ spec 	return ok && SameTable(a.F.RefTable, t)
+//@ spec }
+//@ rec gvcModifiesFKTo
+//@ spec func gvcModifiesFKTo(c schema.Change, t *schema.Table) bool {
+//@ spec 	m, ok := c.(*schema.ModifyForeignKey)
+//@ spec 	return ok && SameTable(m.To.RefTable, t)
+//@ spec }
+//@ rec gvcDropsFKTo
+//@ spec func gvcDropsFKTo(c schema.Change, t *schema.Table) bool {
+//@ spec 	d, ok := c.(*schema.DropForeignKey)
+//@ spec 	return ok && SameTable(d.F.RefTable, t)
+//@ spec }
+//@ rec gvcDepChangeOK
+//@ spec func gvcDepChangeOK(c schema.Change) bool {
+//@ spec 	return (!GvcIs[*schema.AddTable](c) || (c.(*schema.AddTable) != nil && c.(*schema.AddTable).T != nil)) &&
+//@ spec 		(!GvcIs[*schema.DropTable](c) || (c.(*schema.DropTable) != nil && c.(*schema.DropTable).T != nil)) &&
+//@ spec 		(!GvcIs[*schema.ModifyTable](c) || (c.(*schema.ModifyTable) != nil && c.(*schema.ModifyTable).T != nil)) &&
+//@ spec 		(!GvcIs[*schema.AddSchema](c) || (c.(*schema.AddSchema) != nil && c.(*schema.AddSchema).S != nil)) &&
+//@ spec 		(!GvcIs[*schema.DropSchema](c) || (c.(*schema.DropSchema) != nil && c.(*schema.DropSchema).S != nil)) &&
+//@ spec 		(!GvcIs[*schema.AddObject](c) || c.(*schema.AddObject) != nil) &&
+//@ spec 		(!GvcIs[*schema.DropObject](c) || c.(*schema.DropObject) != nil) &&
+//@ spec 		(!GvcIs[*schema.AddForeignKey](c) || (c.(*schema.AddForeignKey) != nil && c.(*schema.AddForeignKey).F != nil)) &&
+//@ spec 		(!GvcIs[*schema.ModifyForeignKey](c) || (c.(*schema.ModifyForeignKey) != nil && c.(*schema.ModifyForeignKey).To != nil)) &&
+//@ spec 		(!GvcIs[*schema.DropForeignKey](c) || (c.(*schema.DropForeignKey) != nil && c.(*schema.DropForeignKey).F != nil)) &&
+//@ spec 		(!GvcIs[*schema.AddColumn](c) || (c.(*schema.AddColumn) != nil && c.(*schema.AddColumn).C != nil && c.(*schema.AddColumn).C.Type != nil)) &&
+//@ spec 		(!GvcIs[*schema.DropColumn](c) || (c.(*schema.DropColumn) != nil && c.(*schema.DropColumn).C != nil && c.(*schema.DropColumn).C.Type != nil)) &&
+//@ spec 		(!GvcIs[*schema.ModifyColumn](c) || (c.(*schema.ModifyColumn) != nil && c.(*schema.ModifyColumn).To != nil && c.(*schema.ModifyColumn).To.Type != nil))
+//@ spec }
+
+//@ func dependsOn(c1, c2 schema.Change, o SortOptions) (r bool)
+//@   requires (forall c schema.Change :: gvcDepChangeOK(c))
+//@   requires (forall t *schema.Table, i int :: t != nil && 0 <= i && i < len(t.ForeignKeys) ==> t.ForeignKeys[i] != nil)
+//@   requires (forall t *schema.Table, i int :: t != nil && 0 <= i && i < len(t.Columns) ==> t.Columns[i] != nil && t.Columns[i].Type != nil)
+//@   requires (forall t *schema.Table :: t != nil ==> t.Schema != nil)
+//@   requires (forall t *schema.Table, i int :: t != nil && 0 <= i && i < len(t.Triggers) ==> t.Triggers[i] != nil)
+//@   modifies nothing
+//@   ensures table-created-before-a-table-referencing-it: GvcIs[*schema.AddTable](c1) && GvcIs[*schema.AddTable](c2) &&
+//@           gvcFKRefs(c1.(*schema.AddTable).T.ForeignKeys, c2.(*schema.AddTable).T) ==> r
+//@   ensures table-created-before-a-foreign-key-added-to-it: GvcIs[*schema.ModifyTable](c1) && GvcIs[*schema.AddTable](c2) &&
+//@           (exists k int :: 0 <= k && k < len(c1.(*schema.ModifyTable).Changes) && gvcAddsFKTo(c1.(*schema.ModifyTable).Changes[k], c2.(*schema.AddTable).T)) ==> r
+//@   ensures table-created-before-a-foreign-key-repointed-to-it: GvcIs[*schema.ModifyTable](c1) && GvcIs[*schema.AddTable](c2) &&
+//@           (exists k int :: 0 <= k && k < len(c1.(*schema.ModifyTable).Changes) && gvcModifiesFKTo(c1.(*schema.ModifyTable).Changes[k], c2.(*schema.AddTable).T)) ==> r
+//@   ensures table-modified-after-its-creation: GvcIs[*schema.ModifyTable](c1) && GvcIs[*schema.AddTable](c2) &&
+//@           SameTable(c1.(*schema.ModifyTable).T, c2.(*schema.AddTable).T) ==> r
+//@   ensures table-dropped-after-a-table-referencing-it: GvcIs[*schema.DropTable](c1) && GvcIs[*schema.DropTable](c2) &&
+//@           gvcFKRefs(c2.(*schema.DropTable).T.ForeignKeys, c1.(*schema.DropTable).T) ==> r
+//@   ensures table-dropped-after-foreign-keys-to-it: GvcIs[*schema.DropTable](c1) && GvcIs[*schema.ModifyTable](c2) &&
+//@           (exists k int :: 0 <= k && k < len(c2.(*schema.ModifyTable).Changes) && gvcDropsFKTo(c2.(*schema.ModifyTable).Changes[k], c1.(*schema.DropTable).T)) ==> r
